@@ -4,5 +4,6 @@ CONSTANTS
   DKeys = {110, 111}
   MaxOps = 5
   ThresholdChecked = TRUE
+  ProbeRefusals = FALSE
 INVARIANTS SignedLoads
 CHECK_DEADLOCK FALSE
